@@ -389,6 +389,31 @@ def checker():
     gd = _method(rel, "RuleChecker", "_check_global_deny")
     if "if is_denied:" not in ast.unparse(gd):
         raise Unsupported("_check_global_deny")
+    # which of the two strings goes where: keys and patterns are tested against path_str, reports carry rel_path
+    cls = find_class(parse(rel), "RuleChecker")
+    seen = {"match": 0, "find": 0, "create": 0}
+    for n in ast.walk(cls):
+        if not (isinstance(n, ast.Call) and isinstance(n.func, ast.Attribute)):
+            continue
+        a0 = ast.unparse(n.args[0]) if n.args else None
+        if n.func.attr in ("match_deny_patterns", "match_allow_patterns"):
+            seen["match"] += 1
+            if a0 not in ("path_str", "ctx.path_str"):
+                raise Unsupported(f"{n.func.attr} is not applied to path_str but to {a0}")
+        elif n.func.attr == "find_matching_rule":
+            seen["find"] += 1
+            if a0 != "path_str":
+                raise Unsupported(f"find_matching_rule is not applied to path_str but to {a0}")
+        elif n.func.attr.startswith("create_") and n.func.attr.endswith("_violation"):
+            seen["create"] += 1
+            if a0 not in ("rel_path", "ctx.rel_path"):
+                raise Unsupported(f"{n.func.attr} is not given rel_path but {a0}")
+    if seen != {"match": 5, "find": 1, "create": 5}:
+        raise Unsupported(f"RuleChecker: matcher / directory search / factory calls {seen}")
+    ctxs = [n for n in ast.walk(cls) if isinstance(n, ast.Call) and ast.unparse(n.func) == "RuleCheckContext"]
+    if len(ctxs) != 1 or {k.arg: ast.unparse(k.value) for k in ctxs[0].keywords if k.arg in ("path_str", "rel_path")} != {
+            "path_str": "path_str", "rel_path": "rel_path"}:
+        raise Unsupported("RuleCheckContext(path_str=path_str, rel_path=rel_path, ...)")
     return (defn("fp_checker_keys", "list string", coq_str_list(keys))
             + defn("fp_checker_callees", "list string", coq_str_list(callees))
             + defn("fp_dir_check_order", "list string", coq_str_list(order))
